@@ -83,6 +83,15 @@ Proof.
   unfold ret. split; [exact I|now apply bok_with_rem].
 Qed.
 
+Lemma safe_read_bytes_len n : safe (fun w => len (vdata w) = n) (read_bytes n).
+Proof.
+  intros s Hs. unfold read_bytes. case_if; [exact I|]. case_if; [exact I|].
+  unfold bind, slice_to. case_if; [|lia]. unfold advance. case_if; [|lia].
+  unfold ret. split; [|now apply bok_with_rem]. case_if.
+  - apply N.eqb_eq in E3. subst n. reflexivity.
+  - cbn [vdata]. apply len_take. unfold remaining in *. lia.
+Qed.
+
 Lemma safe_check_max n max : safe (fun _ => True) (check_max n max).
 Proof. unfold check_max. destruct max; [case_if; [apply safe_fail|now apply safe_ret]|now apply safe_ret]. Qed.
 
@@ -227,11 +236,11 @@ Section Frag.
         intros v Hv. now constructor.
     Qed.
 
-    Lemma safe_seq_n t n m : safe (ShB A t) m -> safe (ShL A t) (seq_n n m).
+    Lemma safe_seq_n t n m : safe (ShB A t) m -> safe (fun l => ShL A t l /\ List.length l = n) (seq_n n m).
     Proof.
-      intros Hm. induction n as [|n IH]; cbn [seq_n]; [apply safe_ret; constructor|].
-      eapply safe_bind; [exact Hm|]. intros x Hx. eapply safe_bind; [exact IH|]. intros xs Hxs.
-      apply safe_ret. now constructor.
+      intros Hm. induction n as [|n IH]; cbn [seq_n]; [apply safe_ret; split; [constructor|reflexivity]|].
+      eapply safe_bind; [exact Hm|]. intros x Hx. eapply safe_bind; [exact IH|]. intros xs [Hxs Hlen].
+      apply safe_ret. split; [now constructor|cbn; now rewrite Hlen].
     Qed.
 
     Lemma safe_pos a e :
@@ -240,23 +249,25 @@ Section Frag.
     Proof.
       intros He Hpos Hr. destruct a as [t|t s|t s]; cbn [decode_array unwrap_array] in *.
       - eapply safe_impl; [|eapply safe_basic; eassumption]. intros v Hv. now constructor.
-      - destruct (resolve_size A s true) as [n| |]; cbn [ebind] in He; try discriminate.
+      - destruct (resolve_size A s true) as [n| |] eqn:Ers; cbn [ebind] in He; try discriminate.
         unfold decode_fixed in He. destruct Hpos as [_ [_ [Hts _]]].
         assert (Hcase : t = Opaque \/ t <> Opaque) by (destruct t; (now left) || (right; discriminate)).
         destruct Hcase as [->|Hno].
-        + inversion He; subst e. cbn [eval_dexp]. eapply safe_bind; [apply safe_read_bytes|].
-          intros w _. apply safe_ret. apply SP_fixed_opaque.
+        + inversion He; subst e. cbn [eval_dexp]. eapply safe_bind; [apply safe_read_bytes_len|].
+          intros w Hw. apply safe_ret. apply SP_fixed_opaque. intros n0 E0. rewrite Ers in E0. inversion E0; subst. exact Hw.
         + assert (He' : (if n =? 0 then EOk (EArr 0 (EPrim PU32))
                          else ebind (decode_basic A t UseAlias) (fun e0 => EOk (EArr n e0))) = EOk e).
           { destruct t; try exact He; congruence. }
-          clear He. destruct (n =? 0).
+          clear He. destruct (n =? 0) eqn:En0.
           * inversion He'; subst e. cbn [eval_dexp]. change (N.to_nat 0) with 0%nat. cbn [seq_n].
-            eapply (safe_bind (ShL A t)); [apply safe_ret; apply SL_nil|]. intros l Hl. apply safe_ret.
-            apply SP_fixed; assumption.
+            eapply (safe_bind (fun l => l = [])); [apply safe_ret; reflexivity|]. intros l ->. apply safe_ret.
+            apply SP_fixed; [assumption|apply SL_nil|]. intros n0 E0. rewrite Ers in E0. inversion E0; subst.
+            apply N.eqb_eq in En0. subst. reflexivity.
           * destruct (decode_basic A t UseAlias) as [e0| |] eqn:E0; cbn [ebind] in He'; try discriminate.
             inversion He'; subst e. cbn [eval_dexp].
             eapply safe_bind; [apply safe_seq_n; eapply safe_basic; eassumption|].
-            intros l Hl. apply safe_ret. apply SP_fixed; assumption.
+            intros l [Hl Hlen]. apply safe_ret. apply SP_fixed; [assumption|assumption|].
+            intros n0 E1. rewrite Ers in E1. inversion E1; subst. rewrite Hlen. apply N2Nat.id.
       - destruct Hpos as [Hsafe [_ [[Ht|[Ht|[m Ht]]] _]]]; subst t.
         + assert (Hx : exists mx, e = EVarBytes mx).
           { destruct s as [sz|]; [destruct (resolve_size A sz false); cbn [ebind] in He; try discriminate|];
